@@ -110,7 +110,7 @@ class QueryBase(Check):
         for _name, lines, pool in gen.struct_seeds():
             outs = [real.step(l) for l in lines]
             yield lines, outs, pool
-            for op in list(gen.struct_ops(pool, classes=("D", "U", "X", "DD", "UU"), with_bad=False)):
+            for op in list(gen.struct_ops(pool, classes=("D", "U", "X", "DD", "UU", "DU"), with_bad=False)):
                 if quick and rng.random() < 0.8:
                     continue
                 ls = lines + [op]
@@ -131,7 +131,21 @@ class QueryBase(Check):
                 qs = rng.sample(qs, cap)
             if rng.random() < 0.3:
                 qs = ["flag on"] + qs
-            yield lines + qs, outs + [real.step(q) for q in qs]
+            sc, so = lines + qs, outs + [real.step(q) for q in qs]
+            # second phase: a few more mutations (memos may be warm by now), then the queries again
+            if rng.random() < 0.5:
+                p2 = pool
+                for _ in range(rng.randint(1, 3)):
+                    cands = list(gen.struct_ops(p2, classes=("D", "U", "X", "DU"), with_bad=False, with_vertex=False))
+                    op = rng.choice(cands)
+                    sc.append(op)
+                    so.append(real.step(op))
+                    p2 = p2.after(op, so[-1])
+                q2 = query_lines(p2, rng, flinks=self.flinks)
+                q2 = rng.sample(q2, min(len(q2), cap // 2))
+                sc += q2
+                so += [real.step(q) for q in q2]
+            yield sc, so
 
     def search(self, tier, rng, real, v):
         yield from self.batches("quick", rng, real)
@@ -334,7 +348,7 @@ class C05(Check):
         if rng.random() < 0.7:
             do("flag on")
         for _ in range(rng.randint(2, 4)):
-            do("universe" if rng.random() < 0.2 else "vertex " + rng.choice(["V", "SV"]))
+            do("universe" if rng.random() < 0.2 else "vertex " + rng.choice(["V", "SV", "FV"]))
         for _ in range(length):
             cands = list(all_ops(p)) if rng.random() < 0.3 else list(gen.struct_ops(p, classes=("D", "U", "X")))
             cands = [c for c in cands if not c.startswith("vertex V l=")] or cands
